@@ -194,11 +194,16 @@ func (st Struct) Generate(w io.Writer, settings GenerateSettings) {
 func writeStructFieldUnmarshaller(name string, typ FieldType, w *iohelp.ErrorWriter, settings GenerateSettings, depth int) {
 	iName := "i" + strconv.Itoa(depth)
 	if typ.Array != nil {
-		writeLineWithTabs(w, "%RECV = make([]%TYPE, iohelp.ReadUint32(r))", depth, name, typ.Array.goString(settings))
+		// the announced length is not trusted: allocate a bounded amount up front and
+		// grow while elements actually arrive; stop at the first read failure.
+		laName := arrayLengthName(settings)
+		writeLineWithTabs(w, laName+" := iohelp.ReadUint32(r)", depth)
 		if typ.Array.Simple == typeByte {
-			writeLineWithTabs(w, "r.Read(%RECV)", depth, name)
+			writeLineWithTabs(w, "%RECV = iohelp.ReadBytes(r, "+laName+")", depth, name)
 		} else {
-			writeLineWithTabs(w, "for "+iName+" := range %RECV {", depth, name)
+			writeLineWithTabs(w, "%RECV = make([]%TYPE, iohelp.PreallocLen("+laName+"))", depth, name, typ.Array.goString(settings))
+			writeLineWithTabs(w, "for "+iName+" := 0; uint32("+iName+") < "+laName+" && r.Err == nil; "+iName+"++ {", depth, name)
+			writeLineWithTabs(w, "\t%RECV = iohelp.EnsureLen(%RECV, "+iName+", "+laName+")", depth, name)
 			name = "&(" + name[1:] + "[" + iName + "])"
 			writeStructFieldUnmarshaller(name, *typ.Array, w, settings, depth+1)
 			writeLineWithTabs(w, "}", depth)
@@ -213,7 +218,7 @@ func writeStructFieldUnmarshaller(name string, typ FieldType, w *iohelp.ErrorWri
 		} else {
 			writeLineWithTabs(w, lnName+" := iohelp.ReadUint32(r)", depth)
 		}
-		writeLineWithTabs(w, "%RECV = make(%TYPE, "+lnName+")", depth, name, typ.Map.goString(settings))
+		writeLineWithTabs(w, "%RECV = make(%TYPE, iohelp.PreallocLen("+lnName+"))", depth, name, typ.Map.goString(settings))
 		writeLineWithTabs(w, "for "+iName+" := uint32(0); "+iName+" < "+lnName+" && r.Err == nil; "+iName+"++ {", depth, name)
 		ln := getLineWithTabs(settings.typeUnmarshallers[typ.Map.Key], depth+1, "&"+depthName("k", depth))
 		w.SafeWrite([]byte(strings.Replace(ln, "=", ":=", 1)))
